@@ -1,4 +1,5 @@
-//! `tf` / `tfl` — Threefish-256/512/1024 single-block encrypt / decrypt on the real code.
+//! `tf` / `tfl` — Threefish-256/512/1024 encrypt / decrypt on the real code, through every public API
+//! path (single block, block slice, par-blocks, `&Alg` forwarding, `new` / `with_tweak`).
 //! `tf` is answered by a default build, `tfl` by a build with the feature `no_unroll`
 //! (both names run whatever `unroll8!` shape was compiled; the runner picks the configuration).
 use crate::util::*;
@@ -12,22 +13,90 @@ fn run(size: &str, dir: &str, key: &[u8], t0: u64, t1: u64, blk: &[u8]) -> Strin
             if key.len() != $n || blk.len() != $n {
                 return "bad-op".into();
             }
-            // sequence of operations applied to the block: true = encrypt_block, false = decrypt_block
-            let seq: &[bool] = match dir {
-                "enc" => &[true],
-                "dec" => &[false],
-                "encdec" => &[true, false],
-                "decenc" => &[false, true],
+            // sequence of operations applied to the block: (encrypt?, API path).  Paths: 'b' = the
+            // single-block `encrypt_block`/`decrypt_block`; 's' = the slice API `encrypt_blocks`/
+            // `decrypt_blocks` (a 3-block slice whose middle block is ours, so neighbours are
+            // processed too); 'p' = `encrypt_par_blocks`/`decrypt_par_blocks`; 'r' = through the
+            // `&Alg` forwarding impl of the cipher crate (slice API on a reference).
+            let seq: &[(bool, char)] = match dir {
+                "enc" => &[(true, 'b')],
+                "dec" => &[(false, 'b')],
+                "encdec" => &[(true, 'b'), (false, 'b')],
+                "decenc" => &[(false, 'b'), (true, 'b')],
+                "encs" => &[(true, 's')],
+                "decs" => &[(false, 's')],
+                "encp" => &[(true, 'p')],
+                "decp" => &[(false, 'p')],
+                "encr" => &[(true, 'r')],
+                "decr" => &[(false, 'r')],
+                "encsdecs" => &[(true, 's'), (false, 's')],
+                "decsencs" => &[(false, 's'), (true, 's')],
+                "encdecs" => &[(true, 'b'), (false, 's')],
+                "decsenc" => &[(false, 's'), (true, 'b')],
+                "encpdecp" => &[(true, 'p'), (false, 'p')],
+                "encrdecr" => &[(true, 'r'), (false, 'r')],
                 _ => return "bad-op".into(),
             };
             let r = guard(|| {
-                let fish = <$ty>::with_tweak(GenericArray::from_slice(key), t0, t1);
-                let mut b = GenericArray::clone_from_slice(blk);
-                for &enc in seq {
-                    if enc {
-                        fish.encrypt_block(&mut b);
-                    } else {
-                        fish.decrypt_block(&mut b);
+                // `new()` is the untweaked constructor; use it when the tweak is zero and the op asks
+                // for an alternative path, so that constructor is driven as well
+                // key and block live at byte addresses ≡ off (mod 8) chosen from the input, so that word
+                // loads from unaligned `GenericArray<u8, _>`s (alignment 1 is legal) are exercised
+                let off = blk.iter().fold(key.len(), |a, &x| a.wrapping_mul(31).wrapping_add(x as usize)) % 8;
+                let mut kbuf = vec![0u8; $n + 16];
+                let kstart = (8 - kbuf.as_ptr() as usize % 8) % 8 + off;
+                kbuf[kstart..kstart + $n].copy_from_slice(key);
+                let keyref = GenericArray::from_slice(&kbuf[kstart..kstart + $n]);
+                let fish = if t0 == 0 && t1 == 0 && dir.len() > 3 && !dir.starts_with("encdec") && !dir.starts_with("decenc") {
+                    <$ty as cipher::NewBlockCipher>::new(keyref)
+                } else {
+                    <$ty>::with_tweak(keyref, t0, t1)
+                };
+                let mut bbuf = vec![0u8; $n + 16];
+                let bstart = (8 - bbuf.as_ptr() as usize % 8) % 8 + (off * 3 + 1) % 8;
+                bbuf[bstart..bstart + $n].copy_from_slice(blk);
+                let b: &mut GenericArray<u8, _> = GenericArray::from_mut_slice(&mut bbuf[bstart..bstart + $n]);
+                for &(enc, path) in seq {
+                    match path {
+                        'b' => {
+                            if enc {
+                                fish.encrypt_block(b);
+                            } else {
+                                fish.decrypt_block(b);
+                            }
+                        }
+                        's' | 'r' => {
+                            let mut other = b.clone();
+                            other[0] ^= 0x5a;
+                            let mut three = [other.clone(), b.clone(), other];
+                            if path == 's' {
+                                if enc {
+                                    fish.encrypt_blocks(&mut three);
+                                } else {
+                                    fish.decrypt_blocks(&mut three);
+                                }
+                            } else {
+                                let r = &fish;
+                                if enc {
+                                    BlockEncrypt::encrypt_blocks(&r, &mut three);
+                                } else {
+                                    BlockDecrypt::decrypt_blocks(&r, &mut three);
+                                }
+                            }
+                            // the two neighbours were equal before, so they must be equal after
+                            assert!(three[0] == three[2], "slice API treated equal blocks differently");
+                            *b = three[1].clone();
+                        }
+                        _ => {
+                            let mut par = GenericArray::<_, <$ty as cipher::BlockCipher>::ParBlocks>::default();
+                            par[0] = b.clone();
+                            if enc {
+                                fish.encrypt_par_blocks(&mut par);
+                            } else {
+                                fish.decrypt_par_blocks(&mut par);
+                            }
+                            *b = par[0].clone();
+                        }
                     }
                 }
                 b.to_vec()
